@@ -3,7 +3,7 @@
 META = {
     'level': 'exploration',
     'rule': ('Random task graphs over 9 diagram task types (two declared cache=None, one also max_parallel, one container-like type whose instances can be falsy) (scalar, single-task, list/tuple/dict and nested-collection '
-             'parameters, depth <= 4, 1-4 top-level tasks); build_task_diagram output is parsed back (class blocks, '
+             'parameters, depth <= 4, 1-4 top-level tasks; a fifth of the references reuse an already generated task, i.e. the very same task object appears in several places); build_task_diagram output is parsed back (class blocks, '
              'field lines, run line, arrows with "many" flag) and compared with the harness\'s own traversal of the '
              'generated graph description: multiset of class blocks == reachable types (one each), field lines == '
              'harness table in order, run line == annotated return, arrow set == {(dependent type, parameter, '
@@ -20,7 +20,19 @@ META = {
 }
 
 
+_POOL = []      # nodes generated for the current case (a later reference may reuse one of them: same object)
+
+
 def gen_graph(rng, depth):
+    if _POOL and rng.random() < 0.2:
+        return rng.choice(_POOL)            # shared instance: the very same description, hence the same task object
+    node = _gen_graph(rng, depth)
+    node['id'] = f'n{len(_POOL)}'
+    _POOL.append(node)
+    return node
+
+
+def _gen_graph(rng, depth):
     """Description: {'t': type, 'f': {field: tree}}; tree leaves are task descriptions,
     containers {'l': [...]} / {'d': {k: tree}} / scalars {'s': x}."""
     from vlab.tasks_diagram import TASK_FIELDS
@@ -48,10 +60,14 @@ def gen_tree(rng, depth, single, nest=0):
     return {'d': {k: gen_tree(rng, depth, True, nest + 1) for k in keys}}
 
 
-def realize(node):
+def realize(node, memo=None):
     from vlab.tasks_diagram import DTYPES
+    if memo is None:
+        memo = {}
+    if 't' in node and node.get('id') in memo:
+        return memo[node['id']]
     if 't' in node:
-        kw = {f: realize(tr) for f, tr in node['f'].items()}
+        kw = {f: realize(tr, memo) for f, tr in node['f'].items()}
         T = DTYPES[node['t']]
         first = {'DF': 'n', 'DC': 'v', 'DB': 'label', 'DA': 'x', 'DD': None, 'DE': 'flag', 'DG': 'tag', 'DH': 'n', 'DZ': 'n'}[node['t']]
         if first in ('label', 'tag'):
@@ -62,11 +78,14 @@ def realize(node):
             kw[first] = float(node['scalar'])
         elif first:
             kw[first] = node['scalar']
-        return T(**kw)
+        obj = T(**kw)
+        if node.get('id') is not None:
+            memo[node['id']] = obj
+        return obj
     if 'l' in node:
-        return [realize(x) for x in node['l']]
+        return [realize(x, memo) for x in node['l']]
     if 'd' in node:
-        return {k: realize(v) for k, v in node['d'].items()}
+        return {k: realize(v, memo) for k, v in node['d'].items()}
     return node['s']
 
 
@@ -177,8 +196,10 @@ def run_shard(rep):
     srng = random.Random(f'C20-shared:{rep.seed}')
     chunk = []
     for i in range(cfg['n_shared']):
+        del _POOL[:]
         nodes = [gen_graph(srng, srng.choice([1, 2, 3])) for _ in range(srng.randrange(1, 4))]
-        chunk.append(build_task_diagram([realize(n) for n in nodes]))
+        smemo = {}
+        chunk.append(build_task_diagram([realize(n, smemo) for n in nodes]))
         if len(chunk) == 20 or i == cfg['n_shared'] - 1:
             rep.seen('shared_digest', f'{i // 20}:' + hashlib.sha1('\n'.join(chunk).encode()).hexdigest()[:12])
             chunk = []
@@ -187,12 +208,16 @@ def run_shard(rep):
             rep.count('skipped_for_time')
             break
         rng = random.Random(f'{rep.seed}:C20:{j}')
+        del _POOL[:]
         nodes = [gen_graph(rng, rng.choice([0, 1, 2, 3, 4])) for _ in range(rng.randrange(1, 5))]
-        tasks = [realize(n) for n in nodes]
+        memo = {}
+        tasks = [realize(n, memo) for n in nodes]
+        rep.count('task_objects_built', len(memo))
         direction = rng.choice(['BT', 'TB', 'LR'])
         try:
             text = build_task_diagram(tasks, direction=direction)
-            text2 = build_task_diagram([realize(n) for n in nodes], direction=direction)
+            memo2 = {}
+            text2 = build_task_diagram([realize(n, memo2) for n in nodes], direction=direction)
         except BaseException as ex:   # noqa
             rep.violation(f'raised:{type(ex).__name__}', f'build_task_diagram raised {ex}', {'nodes': nodes})
             continue
@@ -228,7 +253,8 @@ def replay(rep, wit):
     w = wit['witness']
     if 'nodes' not in w:
         return
-    text = build_task_diagram([realize(n) for n in w['nodes']], direction=w.get('direction', 'BT'))
-    text2 = build_task_diagram([realize(n) for n in w['nodes']], direction=w.get('direction', 'BT'))
+    m1, m2 = {}, {}
+    text = build_task_diagram([realize(n, m1) for n in w['nodes']], direction=w.get('direction', 'BT'))
+    text2 = build_task_diagram([realize(n, m2) for n in w['nodes']], direction=w.get('direction', 'BT'))
     for key, msg in judge(w['nodes'], text, text2)[0]:
         rep.violation(key, msg, w)
